@@ -515,7 +515,7 @@ pub fn run(ctx: &mut Ctx, rep: &mut Report) {
                 let matrix = c08::wide_matrix(m, 0);
                 let mut seq = c08::wide_sequence(&matrix);
                 seq.extend(model::digit_pattern(extra, 5, 0));
-                let case = c08::Case { alpha: "dna", matrix, seq, origin: format!("c06 u8 M={} extra={}", m, extra), pre_wrap: None };
+                let case = c08::Case { alpha: "dna", matrix, seq, origin: format!("c06 u8 M={} extra={}", m, extra), pre_wrap: None, spare: 0 };
                 if !crumb(|| wrap("C08", case.json(None))) {
                     continue;
                 }
@@ -590,7 +590,7 @@ pub fn run(ctx: &mut Ctx, rep: &mut Report) {
                             // exact-capacity CLONE of the configured sequence (no spare rows behind the look-ahead rows)
                             for mode in 0..6 {
                                 let exact = mode >= 3;
-                                let cfg = c02::Config { seq: seq.clone(), matrix: matrix.clone(), threshold: t, block, arm, origin: format!("c06 scan L={} M={}", len, mdig.len()), pre_wrap: if block == 3 { Some(1) } else { None }, exact, spare: 0 };
+                                let cfg = c02::Config { seq: seq.clone(), matrix: matrix.clone(), threshold: t, block, arm, origin: format!("c06 scan L={} M={}", len, mdig.len()), pre_wrap: if block == 3 { Some(1) } else { None }, exact, spare: 0, prev_len: None };
                                 let module = if mode % 3 == 0 { "C02" } else { "C03" };
                                 if !crumb(|| {
                                     let mut j = cfg.json();
